@@ -171,6 +171,11 @@ def _deterministic():
         'interface': lambda: teneva.interface(_Y(1), i=[1, 0, 2]),
         'cross.explicit_info': lambda: teneva.cross(_f, _Y(9, r=1), nswp=2, info={}, cache={}),
         'als.explicit_info': lambda: teneva.als(grid, _f(grid), _Y(9, r=2), nswp=2, info={}),
+        # slices without any sample (first index of the first mode, last index of the last mode), kept as they are when skipping is allowed
+        'als.skip': lambda: teneva.als(grid[(grid[:, 0] != 0) & (grid[:, 2] != 2)], _f(grid[(grid[:, 0] != 0) & (grid[:, 2] != 2)]), _Y(9, r=2), nswp=1, info={},
+                                       allow_skip_cores=True),
+        'als.skip3': lambda: teneva.als(grid[(grid[:, 0] != 2) & (grid[:, 1] != 1)], _f(grid[(grid[:, 0] != 2) & (grid[:, 1] != 1)]), _Y(9, r=3), nswp=3, info={},
+                                        allow_skip_cores=True),
         'poly_const_delta': lambda: [teneva.poly([3, 2, 3], 1., 2), teneva.const([3, 2, 3], 2.), teneva.delta([3, 2, 3], [1, 1, 1], 3.)],
         'rand_custom.det': lambda: teneva.rand_custom([3, 2, 3], 2, lambda sz: np.arange(sz) * 0.5),
     }
